@@ -101,6 +101,16 @@ CHECKS = {
                 "values only",
         "technique": "symbolic execution of the Python source on symbolic strings and z3 real terms + SMT (QF_NRA) obligations per path, counterexample replay",
     },
+    "C12": {
+        "text": "The five length/unit functions are executed on a symbolic text: optional blank, a numeral atom (value an unbounded symbolic "
+                "real; or flagged non-numeric; or absent), 0-2 symbolic suffix characters over the unit letters of both cases plus e x %, "
+                "optional blank. Per path z3 proves: a value is returned exactly for the ten supported suffixes with the right unit, "
+                "conversion uses the SVG factor at 96 px/in (to relative 1e-9), converting back returns the value, getLength = 96 x "
+                "getLengthInches, percentages are taken of the reference, everything else yields None with no exception.",
+        "note": "numerals are atoms (float(atom) = its symbolic value / ValueError); exact-real model with relative tolerance 1e-9 for "
+                "constants pre-evaluated in binary64; percent reference != 0; inf/nan/underscores outside the alphabet",
+        "technique": "symbolic execution of the Python source on symbolic strings and z3 real terms + SMT (QF_LRA/NRA) obligations per path, counterexample replay",
+    },
     "C13": {
         "text": "spatial_grid.Index construction, removal and nearest() are executed on paths whose end points and the query are unbounded "
                 "symbolic reals, for concrete grid sizes, both reversal settings and every removal subset; per path z3 (QF_NRA) proves "
